@@ -135,7 +135,7 @@ def _call(fn, arg, watchdog):
             faulthandler.cancel_dump_traceback_later()
 
 
-def pool_map(fn, args, nworkers=None, watchdog=600, deadline=None):
+def pool_map(fn, args, nworkers=None, watchdog=600, deadline=None, force_pool=False):
     """Run fn over args in forked workers, return results in argument order.
 
     A worker that dies, raises or trips the watchdog makes the whole call raise
@@ -145,7 +145,7 @@ def pool_map(fn, args, nworkers=None, watchdog=600, deadline=None):
     args = list(args)
     nworkers = nworkers or workers()
     results = [None] * len(args)
-    if nworkers <= 1 or len(args) <= 1:
+    if not force_pool and (nworkers <= 1 or len(args) <= 1):
         for i, a in enumerate(args):
             if deadline and time.time() > deadline:
                 break
@@ -192,6 +192,62 @@ def pool_map(fn, args, nworkers=None, watchdog=600, deadline=None):
             results[i] = val
             submit_some()
     return results
+
+
+# --------------------------------------------------------------------------
+# process-level isolation: run fn in a forked child of the *current* process.
+# If the caller is a pristine post-import interpreter that never executes the
+# system under test itself, every call starts from the state of a fresh process.
+# --------------------------------------------------------------------------
+def forked_call(fn, *args, timeout=900):
+    import pickle
+    import select
+
+    r, w = os.pipe()
+    sys.stdout.flush()
+    sys.stderr.flush()
+    pid = os.fork()
+    if pid == 0:
+        os.close(r)
+        code = 0
+        try:
+            try:
+                payload = ("ok", fn(*args))
+            except HarnessError as e:
+                payload = ("harness", str(e))
+            except BaseException as e:  # noqa
+                payload = ("harness", f"{type(e).__name__}: {e}\n{traceback.format_exc()}")
+            data = pickle.dumps(payload)
+            with os.fdopen(w, "wb") as f:
+                f.write(data)
+        except BaseException:  # noqa
+            code = 1
+        os._exit(code)
+    os.close(w)
+    chunks = []
+    deadline = time.time() + timeout
+    try:
+        while True:
+            left = deadline - time.time()
+            if left <= 0:
+                os.kill(pid, signal.SIGKILL)
+                os.waitpid(pid, 0)
+                raise HarnessError(f"forked call exceeded {timeout}s")
+            ready, _, _ = select.select([r], [], [], min(left, 5.0))
+            if ready:
+                b = os.read(r, 1 << 20)
+                if not b:
+                    break
+                chunks.append(b)
+    finally:
+        os.close(r)
+    os.waitpid(pid, 0)
+    if not chunks:
+        raise HarnessError("forked call died without a result")
+    kind, val = pickle.loads(b"".join(chunks))
+    if kind != "ok":
+        raise HarnessError(val)
+    return val
 
 
 # --------------------------------------------------------------------------
